@@ -336,7 +336,7 @@ func checkProofResult(result, value []byte) bool {
 		s = append(s, 0)
 	}
 	s = append(s, tempBytes...)
-	// TODO
-	//hash := crypto.Keccak256(value)
-	return bytes.Equal(s, value)
+	// storage words are 32 bytes; shorter expected values (the 8-byte clean
+	// sequence) are left-padded like the word read from the trie
+	return bytes.Equal(s, common.LeftPadBytes(value, 32))
 }
